@@ -111,10 +111,14 @@ CONVS = ["str", "float", "fint", "fbool", "fboolorfloat", "fintlist",
 ERR = {"ValueError": 1, "TypeError": 2, "OverflowError": 3,
        "AttributeError": 4, "KeyError": 5}
 
-RECTIFIED = {("setup", "software version"), ("experiment", "event count"),
-             ("imaging", "roi size x"), ("imaging", "roi size y"),
-             ("fluorescence", "samples per event"),
-             ("fluorescence", "channel count")}
+# keys the writer always rewrites (our files hold no image, mask or trace, so
+# roi size and samples per event must survive; the channel count may only be
+# ADDED when it is missing)
+RECTIFIED = {("setup", "software version"), ("experiment", "event count")}
+TDMS_RECTIFIED = RECTIFIED | {
+    ("imaging", "roi size x"), ("imaging", "roi size y"),
+    ("fluorescence", "samples per event"), ("fluorescence", "channel count")}
+MAY_APPEAR = {("fluorescence", "channel count")}
 
 
 # --------------------------------------------------------------------------
@@ -165,7 +169,8 @@ def build_scalar(s):
     if t == "xnp":
         return getattr(np, XNP[s[1]])(
             s[2].encode() if s[1] == "bytes_" else
-            (s[2] if s[1] == "str_" else float(s[2])))
+            (s[2] if s[1] == "str_" else
+             (int(s[2]) if "int" in s[1] else float(s[2]))))
     if t == "none":
         return None
     if t == "str":
@@ -276,6 +281,10 @@ def r_value(v):
 # flat encoding of what the implementation returned (mirrors enc_value)
 # --------------------------------------------------------------------------
 def e_fl(x):
+    import numpy as np
+    if isinstance(x, (int, np.integer)) and not isinstance(x, (bool,
+                                                               np.bool_)):
+        return [0, 8 * int(x)]          # integers exactly
     x = float(x)
     if math.isnan(x):
         return [1, 0]
@@ -434,6 +443,9 @@ def py_equal(a, b):
                 return bool(aa == bb)
             # mixed content: element by element
             return all(py_equal(x, y) for x, y in zip(list(a), list(b)))
+        if aa.dtype.kind in "iub" and bb.dtype.kind in "iub":
+            # integers exactly (float64 has 53 bits)
+            return bool(np.all(aa.astype(object) == bb.astype(object)))
         return bool(np.array_equal(aa.astype(float), bb.astype(float),
                                    equal_nan=True))
     except Exception:
@@ -747,6 +759,14 @@ def impl_route4(case, val, scratch, idx):
                        not isinstance(stored, bool))
     elif fname == "fnumber" and lk == lk2:
         claimed = type(stored) is float   # ("1" is read back as 1.0)
+    def big(x):
+        if isinstance(x, (list, tuple)):
+            return any(big(y) for y in x)
+        return isinstance(x, int) and abs(x) > 2 ** 53
+    if big(stored):
+        # (the text of an integer is read through float: 53 bits; the .cfg
+        # file is outside the property's storage sentence)
+        claimed = False
     if claimed:
         if obs[0] == "exc":
             fails.append(("saveload", "stored %s; loading the saved file "
@@ -1243,7 +1263,15 @@ def fixed_values():
               "2.5e-07", "123456.789", "-0.04", "1e-300"]:
         vals.append(["xfloat", r])
         vals.append(S(r))
-    vals += [["xint", 2 ** 53 + 1], ["xint", -(2 ** 62) - 3],
+    vals += [["int", 2 ** 53 + 1], ["int", -(2 ** 62) - 3],
+             ["int", 2 ** 63 - 1], ["int", -(2 ** 63)],
+             ["npint", 2 ** 53 + 1], ["npint", 2 ** 63 - 1],
+             ["npint", -(2 ** 60) - 1], ["xint", 2 ** 70 + 1],
+             ["xnp", "uint64", str(2 ** 63 + 5)],
+             ["xnp", "uint64", str(2 ** 53 + 1)],
+             ["xnp", "int32", str(2 ** 31 - 1)],
+             ["list", [["npint", 2 ** 53 + 1], ["int", 2 ** 60 + 1]]],
+             ["arr1", "i", [8 * (2 ** 53 + 1), 8]],
              ["xnp", "int32", "5"], ["xnp", "uint8", "3"],
              ["xnp", "uint64", "7"], ["xnp", "int16", "-2"],
              ["xnp", "float16", "1.5"], ["xnp", "str_", "Abc"],
@@ -1781,7 +1809,9 @@ def random_meta_spec(rng):
             elif f == "fint":
                 v = rng.choice([I(n), F(m), S(str(n)), S("true"),
                                 ["bool", False], ["npint", n], ["npf64", m],
-                                ["arr0", "i", 8 * n]])
+                                ["arr0", "i", 8 * n], I(2 ** 53 + 1),
+                                ["npint", 2 ** 60 + 1], I(2 ** 63 - 1),
+                                S(str(2 ** 53 + 1))])
             elif f == "fbool":
                 v = rng.choice([["bool", True], ["bool", False], S("true"),
                                 S("False"), I(0), I(1), S("0"), F(0),
@@ -1799,6 +1829,18 @@ def random_meta_spec(rng):
             else:
                 continue
             meta.setdefault(sec, {})[key] = v
+    # stated counts that differ from what the stored features suggest
+    # (fl1_max, fl2_max, fl3_max are stored; no trace, no image)
+    fl = meta.setdefault("fluorescence", {})
+    if rng.random() < 0.75:
+        fl["channel count"] = rng.choice([I(1), I(2), S("2"), I(3), F(16),
+                                          ["npint", 1]])
+    fl["samples per event"] = rng.choice([I(100), S("177"), ["npint", 566]])
+    fl["channels installed"] = rng.choice([I(3), I(2), F(8)])
+    fl["laser count"] = rng.choice([I(1), I(3), S("2")])
+    im = meta.setdefault("imaging", {})
+    im["roi size x"] = rng.choice([I(250), S("64"), F(800)])
+    im["roi size y"] = rng.choice([I(80), ["npint", 96]])
     ex = meta.setdefault("experiment", {})
     # (dclab-join sorts its inputs by date, time and run index, dclab-split
     # reads the sample name: these four are always present)
@@ -1906,7 +1948,8 @@ def carry_chains(run, cases, impl):
                 if s in ("filtering", "calculation"):
                     continue
                 for k2 in cfg[s]:
-                    if (s, k2) not in known and (s, k2) not in excl:
+                    if (s, k2) not in known and (s, k2) not in excl and \
+                            (s, k2) not in MAY_APPEAR:
                         fails.append("%s: %s:%s appeared" % (hop, s, k2))
 
         def write(path, m, tshift=0):
@@ -1927,6 +1970,9 @@ def carry_chains(run, cases, impl):
                     fails.append("store_metadata wrote the fmt_tdms section")
                 hw.store_feature("deform", np.linspace(.01, .02, 7) + tshift)
                 hw.store_feature("area_um", np.linspace(20, 90, 7))
+                for ii in (1, 2, 3):
+                    hw.store_feature("fl%d_max" % ii,
+                                     np.arange(7) * 10.0 + ii)
 
         out = io.StringIO()
         try:
@@ -1966,19 +2012,22 @@ def carry_chains(run, cases, impl):
                 pd = os.path.join(d, "export_dict.rtdc")
                 with dclab.new_dataset(pa) as ds:
                     observe("new_dataset", ds.config)
-                    ds.export.hdf5(p1, features=["deform", "area_um"],
+                    ds.export.hdf5(p1, features=["deform", "area_um", "fl1_max", "fl2_max", "fl3_max"],
                                    filtered=False)
-                    ds.export.hdf5(pf, features=["deform", "area_um"],
+                    ds.export.hdf5(pf, features=["deform", "area_um",
+                                                 "fl1_max"],
                                    filtered=True)
                     hierarchy_check(ds, observe, fails)
                     child = dclab.new_dataset(ds)
-                    child.export.hdf5(pc, features=["deform", "area_um"],
+                    child.export.hdf5(pc, features=["deform", "area_um",
+                                                    "fl2_max", "fl3_max"],
                                       filtered=False)
                 dsd = dclab.new_dataset({"deform": np.linspace(.01, .02, 7),
-                                         "area_um": np.linspace(20, 90, 7)})
+                                         "area_um": np.linspace(20, 90, 7),
+                                         "fl2_max": np.arange(7) * 1.0})
                 dsd.config.update(meta)
                 dsd.config["setup"]["software version"] = "verif 1"
-                dsd.export.hdf5(pd, features=["deform", "area_um"],
+                dsd.export.hdf5(pd, features=["deform", "area_um", "fl2_max"],
                                 filtered=False)
                 for hop, pp in (("export_filtered", pf),
                                 ("export_child", pc), ("export_dict", pd)):
@@ -2089,7 +2138,7 @@ def tdms_carry(run):
                         if sec == "fmt_tdms" or sec not in ds.config:
                             continue
                         for k, want in ds.config[sec].items():
-                            if (sec, k) in RECTIFIED:
+                            if (sec, k) in TDMS_RECTIFIED:
                                 continue
                             got = do.config[sec].get(k, ABSENT) \
                                 if sec in do.config else ABSENT
@@ -2106,7 +2155,7 @@ def tdms_carry(run):
                                         sec, k, type(got).__name__))
                         for k in (do.config[sec] if sec in do.config else []):
                             if k not in ds.config[sec] and \
-                                    (sec, k) not in RECTIFIED and \
+                                    (sec, k) not in TDMS_RECTIFIED and \
                                     (sec, k) != ("experiment",
                                                  "run identifier"):
                                 fails.append("%s:%s appeared" % (sec, k))
